@@ -1,4 +1,5 @@
 import MoneroModel.Proofs.LedgerInst
+import MoneroModel.Proofs.LedgerTx
 import MoneroModel.Proofs.BlockSound
 import MoneroModel.Props.C06
 import MoneroModel.Props.C16
@@ -94,6 +95,20 @@ theorem C04_alloc_bound_inputs (b : Bytes) :
     unfold used; split <;> omega
   have := Nat.mul_le_mul_left (sizes.varint + sizes.txin) hu
   omega
+
+/-- allocation ledger for the WHOLE transaction decoder (prefix, v1 signature rows, RingCT base, all prunable layouts): the
+instrumented decoder `rtx` — `with_capacity` reservations charged after their cap check, push-grown vectors (ecdh info, CLSAGs,
+MLSAGs, signature rows) charged with growth factor 4, earlier fields alive while later ones are read — computes exactly the
+model's result, and at every moment of the decode the outstanding heap is at most `2·CAP + 88·|b|`, on success and on failure -/
+theorem C04_alloc_bound_tx (b : Bytes) :
+    (rtx b).val = tx b ∧ (rtx b).peak ≤ 2 * CAP + Btx * b.length := alloc_bound_tx b
+/-- … and for blocks (header, miner transaction, hash list) -/
+theorem C04_alloc_bound_block (b : Bytes) :
+    (rblock b).val = block b ∧ (rblock b).peak ≤ 2 * CAP + Bblock * b.length := alloc_bound_block b
+/-- after a failed parse of a transaction or block nothing stays allocated -/
+theorem C04_alloc_released (b : Bytes) :
+    ((rtx b).val = none → (rtx b).live = 0) ∧ ((rblock b).val = none → (rblock b).live = 0) :=
+  ⟨alloc_released_tx b, alloc_released_block b⟩
 
 /-- nothing stays allocated after a failed decode -/
 theorem C04_alloc_released_on_error (b : Bytes) (h : (rvecTxIn b).val = none) : (rvecTxIn b).live = 0 :=
